@@ -9,4 +9,40 @@ PROPS = {
                 "strings of length <= 2 and sampled 3..5 byte continuation prefixes, for both decoders; "
                 "non-trivial = multi-byte encodings or rejected/continued inputs; distinct by input",
     },
+    "C04": {
+        "suites": [("read", 4000, 60000), ("unm", 3000, 40000), ("wire", 2000, 30000)],
+        "oracle": (20000, 400000),
+        "rule": "hostile frames: every prefix of valid frames (re-framed), single length-field mutations, all 16 type nibbles "
+                "over valid bodies, random bytes; ReadPacket and UnmarshalBinary of the frame's and a random type; "
+                "non-trivial = frames longer than 2 bytes, distinct by frame bytes",
+    },
+    "C05": {
+        "suites": [("read", 4000, 60000), ("unm", 3000, 40000)],
+        "oracle": (20000, 400000),
+        "rule": "as C04 under a watchdog, plus list-length <= frame bytes and allocation <= 64*(declared+actual)+64KiB; "
+                "non-trivial = frames longer than 2 bytes",
+    },
+    "C06": {
+        "suites": [("read", 4000, 60000)],
+        "oracle": (3000, 60000),
+        "rule": "streams of 1-6 frames (valid, content-malformed, empty) plus trailing bytes under random fragmentation; "
+                "per call: bytes consumed = frame size, result = result of the frame alone; non-trivial = >= 2 frames",
+    },
+    "C07": {
+        "suites": [("read", 4000, 60000)],
+        "oracle": (1500, 30000),
+        "rule": "frames of <= 10 bytes: every composition into chunks x zero-length reads x EOF style (exhaustive); "
+                "longer frames: random schedules and bytewise delivery; non-trivial = more than one chunk",
+    },
+    "C08": {
+        "suites": [("read", 4000, 60000)],
+        "oracle": (1500, 30000),
+        "rule": "frames x every cut offset (<=40 bytes exhaustively) x fault in the same call as the last bytes / in the "
+                "next call x io.EOF / injected transport error; non-trivial = cut after the first byte",
+    },
+    "C16": {
+        "suites": [("read", 4000, 60000)],
+        "oracle": (300, 3000),
+        "rule": "all 256 first bytes x up to 12 bodies valid for the selected type (incl. empty); non-trivial = low nibble != 0",
+    },
 }
